@@ -331,3 +331,61 @@ Proof.
     cbn [run_docs map fst snd]. destruct e; try discriminate; rewrite (IH H2); reflexivity. }
   rewrite G. reflexivity.
 Qed.
+
+(* ---------- Cram: the single script ---------- *)
+Lemma find_skip_some : forall skip rs i k, find_skip skip rs i = Some k ->
+  exists j r, k = (i + j)%nat /\ nth_error rs j = Some r /\ status r = Code skip
+              /\ forall m rm, (m < j)%nat -> nth_error rs m = Some rm -> status rm <> Code skip.
+Proof.
+  intros skip rs. induction rs as [|r t IH]; intros i k H; [discriminate|].
+  cbn [find_skip] in H.
+  destruct (status r) as [c| | | | |] eqn:E.
+  - destruct (Z.eqb c skip) eqn:Ec.
+    + injection H as <-. exists 0%nat, r. split; [lia|split; [reflexivity|split; [apply Z.eqb_eq in Ec; subst; exact E|intros m rm Hm; lia]]].
+    + destruct (IH _ _ H) as (j & r0 & -> & Hn & Hs & Hb). exists (S j), r0. split; [lia|split; [exact Hn|split; [exact Hs|]]].
+      intros m rm Hm Hnm. destruct m as [|m']; [cbn in Hnm; injection Hnm as <-; rewrite E; intros Q; injection Q as ->; rewrite Z.eqb_refl in Ec; discriminate|].
+      apply (Hb m' rm); [lia|exact Hnm].
+  - destruct (IH _ _ H) as (j & r0 & -> & Hn & Hs & Hb). exists (S j), r0. split; [lia|split; [exact Hn|split; [exact Hs|]]].
+    intros m rm Hm Hnm. destruct m as [|m']; [cbn in Hnm; injection Hnm as <-; rewrite E; discriminate|apply (Hb m' rm); [lia|exact Hnm]].
+  - destruct (IH _ _ H) as (j & r0 & -> & Hn & Hs & Hb). exists (S j), r0. split; [lia|split; [exact Hn|split; [exact Hs|]]].
+    intros m rm Hm Hnm. destruct m as [|m']; [cbn in Hnm; injection Hnm as <-; rewrite E; discriminate|apply (Hb m' rm); [lia|exact Hnm]].
+  - destruct (IH _ _ H) as (j & r0 & -> & Hn & Hs & Hb). exists (S j), r0. split; [lia|split; [exact Hn|split; [exact Hs|]]].
+    intros m rm Hm Hnm. destruct m as [|m']; [cbn in Hnm; injection Hnm as <-; rewrite E; discriminate|apply (Hb m' rm); [lia|exact Hnm]].
+  - destruct (IH _ _ H) as (j & r0 & -> & Hn & Hs & Hb). exists (S j), r0. split; [lia|split; [exact Hn|split; [exact Hs|]]].
+    intros m rm Hm Hnm. destruct m as [|m']; [cbn in Hnm; injection Hnm as <-; rewrite E; discriminate|apply (Hb m' rm); [lia|exact Hnm]].
+  - destruct (IH _ _ H) as (j & r0 & -> & Hn & Hs & Hb). exists (S j), r0. split; [lia|split; [exact Hn|split; [exact Hs|]]].
+    intros m rm Hm Hnm. destruct m as [|m']; [cbn in Hnm; injection Hnm as <-; rewrite E; discriminate|apply (Hb m' rm); [lia|exact Hnm]].
+Qed.
+Lemma find_skip_none : forall skip rs i, find_skip skip rs i = None -> forall j r, nth_error rs j = Some r -> status r <> Code skip.
+Proof.
+  intros skip rs. induction rs as [|r t IH]; intros i H j r0 Hn; [destruct j; discriminate|].
+  cbn [find_skip] in H. destruct j as [|j'].
+  - cbn in Hn. injection Hn as <-. destruct (status r) as [c| | | | |]; try discriminate.
+    destruct (Z.eqb c skip) eqn:Ec; [discriminate|]. intros Q. injection Q as ->. rewrite Z.eqb_refl in Ec. discriminate.
+  - cbn in Hn. destruct (status r) as [c| | | | |]; try (eapply IH; eassumption).
+    destruct (Z.eqb c skip); [discriminate|eapply IH; eassumption].
+Qed.
+
+(* the script is reported skipped exactly when a divider that was printed carries the skip code (the first such test case
+   is named), or the script itself ended in the skip code -- whether or not a later test case ended the script early *)
+Theorem script_skip_has_cause : forall skip rs early k, exec_script2 skip rs early = ExSkipped k ->
+  (exists r, nth_error (produced rs early) k = Some r /\ status r = Code skip)
+  \/ (k = 0%nat /\ exists r, script_first_stop (produced rs early) = Some r /\ status r = ESkipped).
+Proof.
+  intros skip rs early k H. unfold exec_script2 in H.
+  destruct (script_first_stop (produced rs early)) as [r|] eqn:S.
+  - right. destruct (status r) eqn:E; try discriminate. injection H as <-. split; [reflexivity|]. exists r. split; [reflexivity|exact E].
+  - left. destruct (find_skip skip (produced rs early) 0) as [i|] eqn:F.
+    + injection H as <-. destruct (find_skip_some _ _ _ _ F) as (j & r & -> & Hn & Hs & _). exists r. split; [exact Hn|exact Hs].
+    + destruct early; discriminate.
+Qed.
+Theorem script_skip_detected : forall skip rs early j r, script_first_stop (produced rs early) = None ->
+  nth_error (produced rs early) j = Some r -> status r = Code skip ->
+  exists k, (k <= j)%nat /\ exec_script2 skip rs early = ExSkipped k.
+Proof.
+  intros skip rs early j r S Hn Hs. unfold exec_script2. rewrite S.
+  destruct (find_skip skip (produced rs early) 0) as [i|] eqn:F.
+  - exists i. split; [|reflexivity]. destruct (find_skip_some _ _ _ _ F) as (j' & r' & -> & Hn' & Hs' & Hb).
+    destruct (Nat.le_gt_cases j' j) as [L|G]; [lia|]. exfalso. apply (Hb j r G Hn). exact Hs.
+  - exfalso. exact (find_skip_none _ _ _ F j r Hn Hs).
+Qed.
